@@ -208,9 +208,11 @@ class Packet(_with_metaclass(bisturi.packet_builder.MetaPacket, object)):
         # A described field (Auto, AutoLength) is read through its
         # descriptor, as the user reads it: its hidden slot is only brought
         # up to date when the packet is packed
+        # An embedded Ref has no value either: what it refers to is held by
+        # the fields that it borrowed, its own slot is not set by a parse
         return [
             f.descriptor_name or name for name, f, _, _ in self.get_fields()
-            if not isinstance(f, (Move, Em))
+            if not isinstance(f, (Move, Em)) and not getattr(f, 'embed', False)
         ]
 
     def __eq__(self, other):
